@@ -538,7 +538,18 @@ def run(model: Model, rep, tier: str) -> None:
 
 _U = "skfem/utils.py"
 _CB = "skfem/assembly/basis/composite_basis.py"
+_QP = "skfem/element/element_quad/element_quadp.py"
+_LP = "skfem/element/element_line/element_line_pp.py"
+_GUARD = "        if self._X.shape != X.shape or (self._X != X).any():"
 MUTANTS = [
+    ("Legendre tables of the quadrilateral kept unless all entries differ",
+     (_QP, _GUARD,
+      "        if self._X.shape != X.shape or (self._X != X).all():"),
+     "C15-R1"),
+    ("Legendre tables of the line kept when one entry coincides",
+     (_LP, _GUARD,
+      "        if self._X.shape != X.shape or not (self._X == X).any():"),
+     "C15-R1"),
     ("quadrilateral finder cached in a dataclass field",
      [("skfem/mesh/mesh_quad_1.py",
        "    elem: Type[Element] = ElementQuad1\n",
@@ -670,6 +681,12 @@ MUTANTS = [
       "Optional[ndarray]:\n"), "C15-R5"),
 ]
 TWINS = [
+    ("Legendre guard spelled 'not all equal'",
+     (_QP, _GUARD,
+      "        if self._X.shape != X.shape or not (self._X == X).all():")),
+    ("Legendre guard spelled with np.any",
+     (_LP, _GUARD,
+      "        if self._X.shape != X.shape or np.any(self._X != X):")),
     ("composite basis shifts copies of its factors' DOF tables",
      (_CB, "            dofs = []\n            offset = 0\n            for "
       "basis in self.bases:\n                dofs.append(basis.element_dofs "
